@@ -470,6 +470,17 @@ def run_transport(ctx, pool, transport, include_blocked=False):
     g.init = all_init
     ctx.note('%s: %d of %d recorded traces (%d system calls) are behaviours of %s; SPEC-DRIFT %d; %d end blocked' % (
         transport, stats['accepted'], stats['replayed'], stats['steps'], T['module'], stats['drift'], stats['blocked']))
+    stats['completed'] = sum(1 for o in outs if o.get('completed'))
+    nlab = lambda name: sum(1 for j in jobs if any(x[0] == 'P' and x[1].startswith(name) for x in j[2]))
+    what = {
+        'pty': 'real pty child, select / poll alternately',
+        'fd': 'every schedule on pipe / FIFO / pty / socketpair / TCP descriptor x select / poll x bytes / unicode (units = bytes of multi-byte '
+              'characters: reads end inside characters); %d replays with urgent data sent by the TCP peer (select flavour)' % nlab('PeerUrgent'),
+        'socket': 'socketpair x bytes / unicode (recv() results that end inside a multi-byte character)',
+        'popen': 'gated reader thread; %d replays in which the caller reaps the exited child (wait()) before / between reads' % nlab('Reap'),
+    }[transport]
+    ctx.note('%s worlds: %s; %d replays continued to the end of the stream after the schedule (peer closes / exits, reads until EOF): '
+             'everything written is returned, then EOF' % (transport, what, stats['completed']))
     return res, g, stats, jobs, outs
 
 
@@ -579,14 +590,21 @@ def run(ctx):
                     for tr, r in results.items()],
         'evaluations': tot('replayed'), 'distinct_nontrivial': tot('nontrivial'),
         'rule': 'one replay per distinct schedule (peer actions placed before the k-th reader system call) derived from every '
-                'single-call path out of every distinct inter-call state of the TLC state graph, per transport (fd: x pipe/pty/'
-                'socket descriptor x select/poll); non-trivial = contains at least one peer action',
+                'single-call path out of every distinct inter-call state of the TLC state graph, per transport (fd: x pipe/FIFO/pty/'
+                'socketpair/TCP descriptor x select/poll x bytes/unicode; socket: x bytes/unicode; popen: inter-call states include '
+                '"child reaped by the caller" and "last read returned nothing"), each continued to the end of the stream; over the cap: the '
+                'same number of paths out of every inter-call state; non-trivial = contains at least one peer action',
         'exhaustive': not ctx.quick(), 'spec_drift': tot('drift'), 'accepted_by_model': tot('accepted'),
         'per_transport': {tr: dict(r[2], states=r[0]['distinct']) for tr, r in results.items()},
         'known_findings_hit': nknown, 'volume_sweep_runs': vruns, 'volume_sweep_max_bytes': vmax,
     }, assumptions=['Linux pty / pipe / socket semantics (readable on hang-up, EIO or empty read at the end, short reads) are observed on the real kernel',
                     'peer actions are placed between system calls; races inside a single system call are the kernel\'s',
-                    'PopenSpawn: the reader thread is gated (its os.read and queue.put wait for the schedule), the child is /bin/cat'],
+                    'PopenSpawn: the reader thread is gated (its os.read and queue.put wait for the schedule), the child is /bin/cat; it exits '
+                    'without being reaped (waitid WNOWAIT), the caller reaps it with PopenSpawn.wait() where the model says so',
+                    'urgent data on a TCP descriptor is replayed with the select() flavour of fdspawn only: with use_poll=True the unchanged code '
+                    'takes POLLPRI for readability and blocks in os.read() (reported defect)',
+                    'unicode mode: the model counts the bytes taken from the descriptor; the text returned is compared with the incremental '
+                    'decoding of those bytes'],
         wall_s=ctx.wall(), violations=nviol)
     return status
 
